@@ -143,6 +143,26 @@ pub fn run(tier: Tier) -> i32 {
         }
     });
     acc.merge(a2);
+    // opening a file of every codec reads the trailer only
+    for (c, lv) in vlib::fam::CODECS_ONE {
+        for levels in [0u8, 2] {
+            let spec = FileSpec::new(vlib::fam::FileCfg::layout(Some(1024), Some(2), levels).with_codec(c, lv), vlib::fam::EntrySpec::Uniform { n: 40, klen: 3, vlen: 300, wide: false });
+            acc.evaluations += 1;
+            match build_file(&spec) {
+                Ok((_, bytes)) => {
+                    acc.hist("open_of_a_codec_file_checked");
+                    if let Err(msg) = check_open(&bytes) {
+                        acc.violation(Violation {
+                            signature: format!("open;codec{c};L{levels}"),
+                            summary: format!("C16: file with codec id {c}, index_levels {levels}: {msg}"),
+                            case: json!({"kind": "open", "file": spec}),
+                        });
+                    }
+                }
+                Err(_) => acc.count("prerequisite_failed_writer_error_(C01)", 1),
+            }
+        }
+    }
     // growth family
     let ns: &[usize] = match tier {
         Tier::Quick => &[1, 10, 100, 1000, 5000],
